@@ -577,6 +577,13 @@ def wid8(ctx, c):
                 elif mname == "IMMEDIATE":
                     c.check(omode == M["IMMEDIATE"], "%s:#" % what, "# stays immediate", "after # the value has mode %s" % omode,
                             "%s: an immediate operand comes out with mode %s" % (site, omode), where)
+                if hint is None and isinstance(ohint, int) and isinstance(got[0], int) and ohint > 0 and got[0] >= 16 ** ohint:
+                    c.finding("%s:own-width" % what, "the constructor gives the value %d a width of %d hex digit(s)" % (got[0], ohint),
+                              "%s: no width was asked for, the constructor settles on %d hex digit(s) for the value $%X - the digits that do not fit are dropped when the operand is emitted"
+                              % (site, ohint, got[0]), where)
+                if mname in ("NONE", "EXTENDED") and omode in dirs and isinstance(got[0], int) and got[0] > 0xFF:
+                    c.finding("%s:own-mode" % what, "the value $%X is marked direct" % got[0],
+                              "%s: the constructor marks $%X as a direct-page address; a direct operand is one byte" % (site, got[0]), where)
                 if hint is not None and mname not in ("EXTENDED", "EXPLICIT_EXTENDED"):
                     c.check(ohint == hint, "%s:hint" % what, "the instruction's width hint is kept", "width hint %s becomes %s" % (hint, ohint),
                             "%s: the width the instruction asked for (%s hex digits) is replaced by %s because of the spelling of the %s" % (site, hint, ohint, what), where)
